@@ -5,29 +5,38 @@
 (* random walks).                                                              *)
 (*                                                                             *)
 (* Export: the VIEW identifies states that differ only in the ghost `last`, so *)
-(* every abstract state (tuple of per-thread event sequences) is expanded      *)
-(* once; every transition TLC generates is appended to IOEnv.EDGES as one JSON *)
-(* line {"src": rec, "step": last', "dst": rec'} (the initial state as         *)
-(* {"init": rec}).  All values in the file are computed by TLC.                *)
+(* every abstract state (per-thread event sequences, thread phases, the        *)
+(* ended-before-created relation) is expanded once; every transition TLC       *)
+(* generates is appended to IOEnv.EDGES as one JSON line                       *)
+(* {"src": state, "step": last', "dst": state'} (the initial state as          *)
+(* {"init": state}).  All values in the file are computed by TLC.              *)
 EXTENDS TraceLog, IOUtils, Json, CSV
 
-GInit == Init /\ CSVWrite("%1$s", <<ToJson([init |-> rec])>>, IOEnv.EDGES)
-GNext == Next /\ CSVWrite("%1$s", <<ToJson([src |-> rec, step |-> last', dst |-> rec'])>>, IOEnv.EDGES)
+Abs  == [rec |-> rec, phase |-> phase, prec |-> SetToSeq(prec)]
+AbsN == [rec |-> rec', phase |-> phase', prec |-> SetToSeq(prec')]
+GInit == Init /\ CSVWrite("%1$s", <<ToJson([init |-> Abs])>>, IOEnv.EDGES)
+GNext == Next /\ CSVWrite("%1$s", <<ToJson([src |-> Abs, step |-> last', dst |-> AbsN])>>, IOEnv.EDGES)
 GSpec == GInit /\ [][GNext]_vars
-GView == rec
+GView == <<rec, phase, prec>>
 
 \* `last` agrees with the state it was computed in (action form: the VIEW hides `last`)
 GSaveAgrees == [][last'.a = "SaveLog" =>
-                   /\ rec' = rec
+                   /\ rec' = rec /\ phase' = phase /\ prec' = prec
+                   /\ \A i \in DOMAIN last'.exp.alt : \A g \in DOMAIN last'.exp.alt[i] : last'.exp.alt[i][g] # <<>>
+                   /\ Len(last'.exp.alt) >= 1 /\ (Len(last'.exp.alt) > 1 <=> Sequential(rec, prec))
                    /\ last'.exp.json = "wellformed"
                    /\ Len(last'.exp.threads) = Cardinality(Active(rec))
                    /\ \A t \in Active(rec) : \E i \in DOMAIN last'.exp.threads : last'.exp.threads[i] = RenderSeq(rec[t])]_vars
-GRecordAgrees == [][last'.a # "SaveLog" =>
+GLifeAgrees == [][last'.a \in {"ThreadStart", "ThreadExit"} =>
+                   /\ rec' = rec
+                   /\ phase'[last'.arg.t] = (IF last'.a = "ThreadStart" THEN "live" ELSE "done")
+                   /\ prec \subseteq prec']_vars
+GRecordAgrees == [][last'.a \in {"Begin", "End", "Marker", "Counter"} =>
                    \E t \in Threads : /\ rec'[t] = Append(rec[t], Ev(CASE last'.a = "Begin" -> "B" [] last'.a = "End" -> "E"
                                                                           [] last'.a = "Marker" -> "i" [] last'.a = "Counter" -> "C",
                                                                      IF last'.a = "End" THEN "" ELSE last'.arg.name,
                                                                      IF last'.a \in {"Begin", "Marker"} THEN last'.arg.cat ELSE "",
                                                                      IF last'.a = "Counter" THEN last'.arg.val ELSE 0))
-                                      /\ last'.arg.t = t
+                                      /\ last'.arg.t = t /\ phase[t] = "live" /\ phase' = phase /\ prec' = prec
                                       /\ \A u \in Threads \ {t} : rec'[u] = rec[u]]_vars
 ===============================================================================
